@@ -660,6 +660,10 @@ impl<'a> World<'a> {
         policy.sign_ecdsa = self.signers[s].caps.ecdsa;
         policy.sign_key_spend = self.signers[s].caps.key_spend;
         policy.leaf_allow = self.signers[s].caps.leaves.clone();
+        if self.mon.corruption && self.dec.choose(&format!("high-s:s{}#{}", s, n), 6) == 1 {
+            policy.ecdsa_high_s = true;
+            self.stats.probe("high_s_signer");
+        }
         match pp {
             1 => policy.sign_key_spend = false,
             2 => policy.sign_leaves = false,
